@@ -2562,3 +2562,139 @@ func init() {
 	reg("C18", ruleFillingLoopsFillEveryEntry)
 	reg("C10", ruleFillingLoopsFillEveryEntry)
 }
+
+// ---------------------------------------------------------------------------------------------------------------
+// NP2: the type parser's syntax tree has ALTERNATIVES held in pointer fields (a type is a name or a parenthesised
+// type: Type.Named / Type.Sub). Code of pkg/dsl that goes through such a field tests it for nil first.
+// ---------------------------------------------------------------------------------------------------------------
+func ruleParserAlternativesTestedBeforeUse(c *core.Ctx) {
+	const rule = "NP2"
+	c.Rule(rule, "pkg/dsl: a pointer field of a pkg/dsl/parser syntax node (an alternative of the grammar, e.g. Type.Named / Type.Sub) is dereferenced only under `x.F != nil` (enclosing if / else-if) or after a leaving `if x.F == nil`", 2)
+	p := c.Pkg("pkg/dsl")
+	if p == nil {
+		c.Undecided(rule, "anchor/pkg/dsl", 0, "package not found")
+		return
+	}
+	info := p.TypesInfo
+	n := 0
+	for _, d := range c.AllDecls() {
+		if c.DeclPkg(d) != p || d.Body == nil || c.IsTestFile(d.Pos()) {
+			continue
+		}
+		// parent links for the statements of the function
+		type frame struct {
+			ifs []*ast.IfStmt // enclosing ifs whose BODY contains the node
+		}
+		var visit func(list []ast.Stmt, conds []string, leftNil map[string]bool)
+		check := func(e ast.Node, conds []string, leftNil map[string]bool) {
+			ast.Inspect(e, func(m ast.Node) bool {
+				if _, isLit := m.(*ast.FuncLit); isLit {
+					return true
+				}
+				se, ok := m.(*ast.SelectorExpr)
+				if !ok {
+					return true
+				}
+				// se = BASE.G where BASE = X.F and F is a pointer field declared in package parser
+				base, ok := ast.Unparen(se.X).(*ast.SelectorExpr)
+				if !ok {
+					return true
+				}
+				sel := info.Selections[base]
+				if sel == nil || sel.Kind() != types.FieldVal {
+					return true
+				}
+				fv, _ := sel.Obj().(*types.Var)
+				if fv == nil || fv.Pkg() == nil || !strings.HasSuffix(fv.Pkg().Path(), "/pkg/dsl/parser") {
+					return true
+				}
+				if _, isPtr := fv.Type().Underlying().(*types.Pointer); !isPtr {
+					return true
+				}
+				n++
+				txt := types.ExprString(base)
+				ok2 := leftNil[txt]
+				for _, cnd := range conds {
+					if strings.Contains(cnd, txt+" != nil") {
+						ok2 = true
+					}
+				}
+				c.Check(ok2, rule, fmt.Sprintf("%s/%s", c.FuncName(d), types.ExprString(se)), se.Pos(), "`"+txt+"` is tested for nil on the path",
+					"`"+txt+"` is an alternative of the grammar and nil when the other one was parsed (a parenthesised type has no `Named`): the dereference panics on input such as `name: (Pair)` instead of producing a located diagnostic")
+				return true
+			})
+		}
+		visit = func(list []ast.Stmt, conds []string, leftNil map[string]bool) {
+			left := map[string]bool{}
+			for k, v := range leftNil {
+				left[k] = v
+			}
+			for _, s := range list {
+				switch x := s.(type) {
+				case *ast.IfStmt:
+					cnd := types.ExprString(x.Cond)
+					if x.Init != nil {
+						check(x.Init, conds, left)
+					}
+					// the condition itself: `a.F != nil && a.F.G …` — the right operand is under the left one
+					condConds := append([]string{}, conds...)
+					if be, ok := ast.Unparen(x.Cond).(*ast.BinaryExpr); ok && be.Op == token.LAND {
+						check(be.X, condConds, left)
+						check(be.Y, append(condConds, types.ExprString(be.X)), left)
+					} else if be, ok := ast.Unparen(x.Cond).(*ast.BinaryExpr); ok && be.Op == token.LOR {
+						check(be.X, condConds, left)
+						// `a.F == nil || a.F.G` : right operand evaluated only when a.F != nil
+						lx := types.ExprString(be.X)
+						if strings.HasSuffix(lx, " == nil") {
+							check(be.Y, append(condConds, strings.TrimSuffix(lx, " == nil")+" != nil"), left)
+						} else {
+							check(be.Y, condConds, left)
+						}
+					} else {
+						check(x.Cond, condConds, left)
+					}
+					visit(x.Body.List, append(append([]string{}, conds...), cnd), left)
+					switch e := x.Else.(type) {
+					case *ast.BlockStmt:
+						visit(e.List, conds, left)
+					case *ast.IfStmt:
+						visit([]ast.Stmt{e}, conds, left)
+					}
+					if bodyLeaves(x.Body) && x.Else == nil {
+						for _, part := range strings.Split(cnd, " || ") {
+							part = strings.TrimSpace(strings.Trim(part, "()"))
+							if strings.HasSuffix(part, " == nil") {
+								left[strings.TrimSuffix(part, " == nil")] = true
+							}
+						}
+					}
+				case *ast.BlockStmt:
+					visit(x.List, conds, left)
+				case *ast.ForStmt:
+					visit(x.Body.List, conds, left)
+				case *ast.RangeStmt:
+					check(x.X, conds, left)
+					visit(x.Body.List, conds, left)
+				case *ast.SwitchStmt:
+					for _, cl := range x.Body.List {
+						visit(cl.(*ast.CaseClause).Body, conds, left)
+					}
+				case *ast.TypeSwitchStmt:
+					for _, cl := range x.Body.List {
+						visit(cl.(*ast.CaseClause).Body, conds, left)
+					}
+				default:
+					check(s, conds, left)
+				}
+			}
+		}
+		visit(d.Body.List, nil, nil)
+	}
+	if n == 0 {
+		c.Undecided(rule, "anchor/uses of the parser's alternatives", 0, "none found")
+	}
+}
+
+func init() {
+	reg("C10", ruleParserAlternativesTestedBeforeUse)
+}
